@@ -621,6 +621,18 @@ def _thread_result_returns(j, cj, off_b, off_l, call_t):
             thread(r2, pv)
 
 
+def _strip_generic_args(x):
+    out, depth = [], 0
+    for ch in x:
+        if ch == '<':
+            depth += 1
+        elif ch == '>':
+            depth -= 1
+        elif depth == 0:
+            out.append(ch)
+    return ''.join(out).replace('::::', '::')
+
+
 def _unique_def(j, l):
     """the one statement / call that defines local l as a whole in the (raw) body j, or None"""
     found = []
@@ -1160,6 +1172,28 @@ def apply_fn_aliases(j):
                 present[found[0]].get('output', '') == want['output']:
             amap[found[0]] = p
             taken.add(found[0])
+            continue
+        if found:
+            continue
+        # a free function that became a method of a new state struct under a new name (`inner(schema, idx, &mut a, &mut b)`
+        # -> `Search::visit(&mut self, idx)`): the one reviewed function missing from the MODULE and the one unknown
+        # private function of that module, returning the same type
+        lost_m = [m for m in missing if module_of(m) == module_of(p)]
+        found_m = [q for q, fn in present.items() if q not in tab and q not in taken and fn.get('vis') != 'pub' and '{' not in q and
+                   module_of(q) == module_of(p)]
+        if len(lost_m) == 1 and len(found_m) == 1 and present[found_m[0]].get('output', '') == want['output'] and want['output'] not in ('()', ''):
+            amap[found_m[0]] = p
+            taken.add(found_m[0])
+            continue
+        # a function nested in another one, hoisted to the module AND renamed: the one unknown private function of the
+        # enclosing module with exactly the reviewed signature (and no other missing function with that signature)
+        if parent in tab or parent in present:
+            outer = parent.rsplit('::', 1)[0]
+            hoisted = [q for q, fn in present.items() if q not in tab and q not in taken and fn.get('vis') != 'pub' and '{' not in q and
+                       q.rsplit('::', 1)[0] == outer and fn.get('inputs', []) == want['inputs'] and fn.get('output', '') == want['output']]
+            if len(hoisted) == 1 and not [m for m in missing if m != p and tab[m] == want]:
+                amap[hoisted[0]] = p
+                taken.add(hoisted[0])
     if not amap:
         return {}
 
@@ -1243,16 +1277,19 @@ def type_aliases(j):
     out = {}
     for p in sorted(missing):
         parent, pname = p.rsplit('::', 1) if '::' in p else ('', p)
-        want = tab[p]
+        want = {k_: v_ for k_, v_ in tab[p].items() if k_ != 'pub'}
+        is_pub = bool(tab[p].get('pub'))
         cands = []
         for q, a in present.items():
+            if is_pub:
+                break       # a public type keeps its name
             if q in tab or a.get('vis') == 'pub' or (q.rsplit('::', 1)[0] if '::' in q else '') != parent or a['kind'] != want['kind']:
                 continue
             qname = q.rsplit('::', 1)[-1]
             shape = [[v['name'] if a['kind'] == 'enum' else '', [f['ty'].replace(q, p) for f in v['fields']]] for v in a['variants']]
             if shape == want['variants']:
                 cands.append(q)
-        rivals = [m for m in missing if m != p and (m.rsplit('::', 1)[0] if '::' in m else '') == parent and tab[m] == want]
+        rivals = [m for m in missing if m != p and (m.rsplit('::', 1)[0] if '::' in m else '') == parent and {k_: v_ for k_, v_ in tab[m].items() if k_ != 'pub'} == want]
         if len(cands) == 1 and not rivals:
             out[cands[0]] = p
             continue
@@ -1261,7 +1298,7 @@ def type_aliases(j):
         # moved to another module under the same name, same shape
         moved = []
         for q, a in present.items():
-            if q in tab or a.get('vis') == 'pub' or q.rsplit('::', 1)[-1] != pname or a['kind'] != want['kind']:
+            if q in tab or (a.get('vis') == 'pub') != is_pub or q.rsplit('::', 1)[-1] != pname or a['kind'] != want['kind']:
                 continue
             shape = [[v['name'] if a['kind'] == 'enum' else '', [f['ty'].replace(q, p) for f in v['fields']]] for v in a['variants']]
             if shape == want['variants']:
@@ -1335,6 +1372,14 @@ class Facts:
                     # ... and one whose arms only build a value (`fn decimal_mode(&self) -> Option<DecimalMode>`: no call
                     # anywhere) is a classifier, not a dispatch: its caller does the work, on the value it returns
                     does_work = any(blk['term'].get('k') == 'call' and not blk.get('cleanup') for blk in b.blocks)
+                    # ... nor is one that only LOOKS at the node (`fn schema_type_name(node: &SchemaNode) -> &str`, calling
+                    # getters): a dispatch that does work is handed something to work on - a reader / writer / state, or
+                    # anything by `&mut`
+                    ptys = [b.local_ty(i) or '' for i in range(1, b.nargs + 1)]
+                    handed_state = any(t_.startswith('&mut ') or re.match(r"&'\w+ mut ", t_) or
+                                       re.search(r'State|Deserializer|Serializer|Reader|Writer|Read\b|Write\b|Visitor|Access', t_) for t_ in ptys) or \
+                        any(re.fullmatch(r'[A-Z]\w{0,2}', t_) for t_ in ptys)      # (a generic parameter may be any of those)
+                    does_work = does_work and handed_state
                     if not (dispatches and does_work):
                         new.add(path)
         if not new:
@@ -1359,7 +1404,24 @@ class Facts:
                     c = t.get('resolved') or t.get('callee')
                     if c in new and b.id != c and not b.id.startswith(c + '::{'):
                         still_called.add(c)
-        gone = new - still_called
+        # (a helper handed over as a function value - `.map(Slot::into_option)` - is never called by name: it stays)
+        by_value = set()
+        if new - still_called:
+            def scan(x):
+                if isinstance(x, dict):
+                    c = x.get('const')
+                    if isinstance(c, dict) and isinstance(c.get('fn'), str):
+                        for h in new:
+                            if c['fn'] == h or c['fn'].startswith(h + '::<') or _strip_generic_args(c['fn']) == _strip_generic_args(h):
+                                by_value.add(h)
+                    for v in x.values():
+                        scan(v)
+                elif isinstance(x, list):
+                    for v in x:
+                        scan(v)
+            for b in self.body_list:
+                scan(b.j.get('blocks'))
+        gone = new - still_called - by_value
         self.body_list = [b for b in self.body_list if b.id not in gone]
         return sorted(new)
 
